@@ -132,6 +132,15 @@ func getPathAndQueryAndTrackID(u *base.URL) (string, string, string, error) {
 }
 
 // used for SETUP when recording
+// urlsHaveSameComponents compares two URLs through their decoded components,
+// in order to be independent of the way the path of the request was escaped.
+func urlsHaveSameComponents(a *base.URL, b *base.URL) bool {
+	return a.Scheme == b.Scheme &&
+		a.Host == b.Host &&
+		a.Path == b.Path &&
+		a.RawQuery == b.RawQuery
+}
+
 func findMediaByURL(
 	medias []*description.Media,
 	path string,
@@ -157,7 +166,7 @@ func findMediaByURL(
 			} else {
 				u1.Path += "/" + media.Control
 			}
-			if u1.String() == u.String() {
+			if urlsHaveSameComponents(u1, u) {
 				return media
 			}
 
@@ -168,7 +177,7 @@ func findMediaByURL(
 				Path:     path + "/" + media.Control,
 				RawQuery: query,
 			}
-			if u2.String() == u.String() {
+			if urlsHaveSameComponents(u2, u) {
 				return media
 			}
 		}
